@@ -46,7 +46,19 @@ def _texts():
     pair = gen.to_text(corpus.build(corpus.pair_desc('ASP', 'LYS', 2.8, 'mid')))
     nterm = gen.to_text(corpus.build(corpus.window_desc('3SGB', 'I', 0, 4)))
     mpo = gen.to_text(gen.ligand('MPO'))
-    return dict(tri=tri, cut=cut, unk=unk, clu=clu, clu2=clu2, pair=pair, nterm=nterm, mpo=mpo)
+
+    def as_lig(name):
+        # a template renamed to residue LIG with atom names X1, X2 ... by element: different molecules, same names
+        s_ = gen.ligand(name, 'L', 700)
+        count = {}
+        for a in s_.atoms:
+            el = a.element
+            count[el] = count.get(el, 0) + 1
+            a.resname = 'LIG'
+            a.name4 = gen.name4('%s%d' % (el.upper(), count[el]), el)
+        return gen.to_text(s_)
+    return dict(tri=tri, cut=cut, unk=unk, clu=clu, clu2=clu2, pair=pair, nterm=nterm, mpo=mpo,
+                lig_a=tri + 'TER\n' + as_lig('NMA'), lig_b=tri + 'TER\n' + as_lig('DMA'), lig_c=tri + 'TER\n' + as_lig('ACT'))
 
 
 def operations(tier):
@@ -62,6 +74,8 @@ def operations(tier):
         dict(name='protonate-all', text='tri', opts=['--protonate-all']),
         dict(name='chain-select', text='pair', opts=['-c', 'A']),
         dict(name='main-two-files', text='tri', opts=[], main=['pair', 'tri']),
+        dict(name='ligand-LIG-amide', text='lig_a', opts=[]),
+        dict(name='ligand-LIG-amine', text='lig_b', opts=[]),
     ]
     if tier == 'thorough':
         ops += [
@@ -71,6 +85,7 @@ def operations(tier):
             dict(name='grid-window', text='pair', opts=['-g', '1', '2', '0.1', '-w', '0', '14', '2']),
             dict(name='phosphate', text='mpo', opts=[]),
             dict(name='nterm-asp', text='nterm', opts=[]),
+            dict(name='ligand-LIG-acetate', text='lig_c', opts=[]),
         ]
     return ops
 
